@@ -213,3 +213,34 @@ def count_gates(tmpl, op):
         return len(sc.trace), [g for (_, g) in sc.trace]
     finally:
         shutil.rmtree(path, ignore_errors=True)
+
+
+def run_sequential(tmpl, steps):
+    """No overlap at all: a history of operations issued one after another, each through one of
+    TWO long-lived store objects on the same directory (two server processes taking turns).
+    steps: list of (which object 0|1, op).  -> record for LinTrace (kind "seq")."""
+    path = tmpl.fresh()
+    try:
+        stores = [_load(GitStore.open_from_path(path)), _load(GitStore.open_from_path(path))]
+        for st in stores:           # both have served requests before (warm caches / UID maps)
+            store_view(st, tmpl)
+            try:
+                st._scan_uids()
+            except Exception:
+                pass
+        res, flags = [], {}
+        for k, (which, op) in enumerate(steps):
+            res.append(make_op(stores[which], tmpl, op, flags, k)())
+        final, opens, fsck, clean = read_final(path, tmpl)
+        views = []
+        for st in stores:
+            try:
+                views.append(store_view(st, tmpl))
+            except Exception:
+                views.append({"error": 0})
+        return {"kind": tmpl.kind, "init": tmpl.init, "who": [w for (w, _) in steps], "ops": [o for (_, o) in steps],
+                "res": res, "final": final, "views_ok": all(v == final for v in views),
+                "etag_ok": [bool(flags.get(k, True)) for k in range(len(steps))],
+                "opens": opens, "fsck": fsck, "clean": clean}
+    finally:
+        shutil.rmtree(path, ignore_errors=True)
